@@ -7,8 +7,8 @@ ROOT="$(cd "$(dirname "${BASH_SOURCE[0]}")/.." && pwd)"
 WITH_TESTS=0
 if [ "${1:-}" = "--with-tests" ]; then WITH_TESTS=1; shift; fi
 PAT="${1:-}"
-if [ -n "$(git -C /repo status --porcelain --untracked-files=no)" ]; then echo "/repo is dirty, refusing"; exit 2; fi
-trap 'git -C /repo checkout -- . 2>/dev/null' EXIT
+if [ -n "$(git -C /repo status --porcelain)" ]; then echo "/repo is dirty, refusing"; exit 2; fi
+trap 'git -C /repo checkout -- . 2>/dev/null; git -C /repo clean -fdq -- src 2>/dev/null' EXIT
 pass=0; fail=0
 list=$(ls "$ROOT"/sensitivity/*.diff "$ROOT"/seeded/*/patch.diff 2>/dev/null)
 for p in $list; do
@@ -25,7 +25,7 @@ for p in $list; do
   t0=$(date +%s.%N)
   out=$("$ROOT/check" "$prop" --tier quick --out "$ROOT/sim/target/sens-$prop.json" 2>&1); code=$?
   t1=$(date +%s.%N)
-  git -C /repo checkout -- .
+  git -C /repo checkout -- . ; git -C /repo clean -fdq -- src
   line=$(echo "$out" | grep -m1 "^violation class" | cut -c1-230)
   outside=no
   case "$p" in */seeded/*) outside=$(python3 -c "import json,sys;print('yes' if json.load(open(sys.argv[1])).get('outside_claim') else 'no')" "$(dirname "$p")/meta.json");; esac
